@@ -137,10 +137,12 @@ func (f *faultConn) Write(b []byte) (int, error) {
 		return f.Conn.Write(b)
 	}
 	mb, cut := mutate(b, spec.Op, pos, spec.Bit)
-	_, err := f.Conn.Write(mb)
+	// mark before forwarding: once the flag is visible, nothing written later by this
+	// side can reach the peer ahead of the modified bytes
 	f.mu.Lock()
 	f.applied, f.appliedLen, f.appliedPos = true, len(b), pos
 	f.mu.Unlock()
+	_, err := f.Conn.Write(mb)
 	if cut || (!f.frameMode && spec.Op == "drop") {
 		f.Conn.Close()
 	}
